@@ -6,66 +6,62 @@ from effects import indirect_kind
 
 
 def constructors(prog, eff):
-    """T-release, constructor half.  For every library function that initialises a
-    freshly allocated cbor_item_t: the type constant it stores, the refcount it
-    stores and how `data` is obtained.
-       data kind: 'null' | 'interior' (pointer into the item block) |
-                  'separate' (its own allocator block) | 'param'
+    """T-release, constructor half.  For every library function that allocates a cbor_item_t itself and returns it: the
+    type constant and the refcount the returned item carries and how its `data` field is obtained, read off the STATE of
+    the item on the function's successful paths (however the fields were written: compound literal + block copy, member
+    by member, memset + members).
+       data kind: 'null' | 'interior' (pointer into the item block) | 'separate' (its own allocator block) | 'param' |
+                  'undefined' (never written)
     Returns {fn name: dict(type=int, refcount=int, data=kind, line=..)}"""
-    off = item_offsets(prog)
+    import paths as P
     out = {}
     for f in prog.lib_funcs():
-        mallocs = [i for i, g in alloc_calls(f, "_cbor_malloc")]
-        if not mallocs:
+        if f.ret_type != "%struct.cbor_item_t*" or not [i for i, g in alloc_calls(f, "_cbor_malloc")]:
             continue
-        # locate aggregate initialisation of an item: stores into an alloca of
-        # %struct.cbor_item_t that is then memcpy'd into a malloc result, or
-        # direct field stores into the malloc result
-        for al in [i for i in f.all_insts() if i.op == "alloca" and i.d.get("alloc_type") == "%struct.cbor_item_t"]:
-            dest = None
-            for c in f.calls():
-                if c.callee and c.callee.startswith("llvm.memcpy") and strip_casts(c.operands[1]) is al:
-                    d = strip_casts(c.operands[0])
-                    if isinstance(d, Inst) and d in mallocs:
-                        dest = d
-            if dest is None:
+        try:
+            ps = P.Executor(prog, eff, max_paths=400).run(f.name)
+        except P.PathCapExceeded:
+            continue
+        rec = None
+        for pa in ps:
+            r = pa.ret
+            if not (isinstance(r, tuple) and r[0] == "call" and r[1] == "_cbor_malloc"):
                 continue
-            rec = dict(line=al.line, fn=f.name, block=dest)
-            for st in f.all_insts():
-                if st.op != "store":
-                    continue
-                root, steps = apath(st.operands[1])
-                if root != ("inst", al.id):
-                    continue
-                o = steps[0][1] if steps and steps[0][0] == "off" else 0
-                if len(steps) > 1:
-                    continue
-                val = st.operands[0]
-                if o == off["type"]:
-                    rec["type"] = const_int(val)
-                elif o == off["refcount"]:
-                    rec["refcount"] = const_int(val)
-                elif o == off["data"]:
-                    v = strip_casts(val)
-                    if isinstance(v, Null):
-                        rec["data"] = "null"
-                    elif isinstance(v, Inst) and v.op == "getelementptr" and strip_casts(v.operands[0]) is dest:
-                        rec["data"] = "interior"
-                        rec["data_offset"] = v.d.get("const_offset")
-                    elif isinstance(v, Inst) and v.op == "call":
-                        rs = eff._vroots(f.name, v)
-                        if rs and all(r[0] == "fresh" for r in rs):
-                            rec["data"] = "separate"
-                        else:
-                            rec["data"] = "unknown"
-                    elif isinstance(v, Arg):
-                        rec["data"] = "param"
-                    else:
-                        rec["data"] = "unknown"
-            if "data" not in rec:
-                # field not mentioned in the initialiser: the compound literal is zero-filled
-                rec["data"] = "null"
-                rec["data_implicit"] = True
+            d = describe_item(prog, pa.st, r)
+            kind = d["data_kind"]
+            data = d["data"]
+            cur = dict(line=f.line, fn=f.name)
+            if d["type"] is not None and d["type"][0] == "c":
+                cur["type"] = d["type"][1]
+            if d["refcount"] is not None and d["refcount"][0] == "c":
+                cur["refcount"] = d["refcount"][1]
+            if data is None:
+                cur["data"] = "undefined"
+            elif kind == "null":
+                cur["data"] = "null"
+            elif kind == "interior":
+                cur["data"] = "interior"
+                cur["data_offset"] = P.ptr_key(data)[1]
+            else:
+                b_ = P.ptr_key(data)[0]
+                if isinstance(b_, tuple) and b_[0] == "call" and any(e.kind == "call" and e.res == b_ and
+                                                                      (e.ckind == "alloc" or e.callee in ("_cbor_alloc_multiple",)) for e in pa.events):
+                    cur["data"] = "separate"
+                elif isinstance(b_, tuple) and b_[0] == "arg":
+                    cur["data"] = "param"
+                else:
+                    cur["data"] = "unknown"
+            if rec is None:
+                rec = cur
+            else:
+                # several successful paths: they must agree on the layout; the stronger obligation wins otherwise
+                order = ["separate", "interior", "param", "unknown", "undefined", "null"]
+                if order.index(cur["data"]) < order.index(rec["data"]):
+                    rec["data"] = cur["data"]
+                for k_ in ("type", "refcount"):
+                    if rec.get(k_) != cur.get(k_):
+                        rec.pop(k_, None)
+        if rec is not None:
             out[f.name] = rec
     return out
 
